@@ -27,11 +27,31 @@ func main() {
 	unroll := flag.Int("unroll", 0, "loop unroll (debug dump)")
 	max := flag.Int("max", 50, "max paths to print (debug dump)")
 	list := flag.Bool("list", false, "list registered properties")
+	modOf := flag.String("mod", "", "debug: print the effect summary of a function")
 	startAt := flag.String("start", "", "debug dump: start the region after the first call whose callee name contains this string")
 	flag.Parse()
 	if *list {
 		for _, id := range rules.Props() {
 			fmt.Println(id)
+		}
+		return
+	}
+	if *modOf != "" {
+		p, err := core.Load(*repo, core.VDefault)
+		if err != nil {
+			fmt.Fprintln(os.Stderr, err)
+			os.Exit(2)
+		}
+		m := p.Mod(p.Func(*modOf))
+		fmt.Println("deref:", m.Deref, "index:", m.Index, "external:", m.External, "freeStores:", m.FreeStores)
+		for f := range m.Writes {
+			fmt.Println("  writes", f.Name())
+		}
+		for cc := range m.Callees {
+			cm := p.Mod(cc)
+			if cm.Deref {
+				fmt.Println("  callee with deref:", core.FuncName(cc))
+			}
 		}
 		return
 	}
